@@ -656,6 +656,29 @@ func (e *Engine) execSelect(st *State, f *Frame, ins *ssa.Select) {
 		f.pc++
 		return
 	}
+	// nothing is ready and nobody else runs: the only thing that can happen is that an active
+	// timer fires (the wait times out)
+	ri = 0
+	for i, s := range ins.States {
+		myri := ri
+		if s.Dir == types.RecvOnly {
+			ri++
+		} else {
+			continue
+		}
+		ch := e.get(st, f, s.Chan).(ChanVal)
+		if ch.obj == 0 {
+			continue
+		}
+		if o := e.obj(st, ch.obj); o.isTimer && o.timerActive {
+			e.wobj(st, ch.obj).timerActive = false
+			st.clock += 1000000
+			now := AggVal{[]Value{e.ctx.BV(64, 1<<63), e.ctx.BV(64, uint64(st.clock)), PtrVal{}}}
+			e.set(f, ins, mk(i, true, myri, now))
+			f.pc++
+			return
+		}
+	}
 	e.unsupported(st, "blocking select")
 }
 
